@@ -60,7 +60,7 @@ func (Prop) Assumptions() []string {
 	}
 }
 
-var opKinds = []string{"create", "create", "create_full", "create_batches", "first", "find", "preload", "preload_all", "joins", "update", "updates", "delete", "delete_pet", "tx", "tx_fail", "assoc_append", "assoc_find", "assoc_count", "note", "note_find", "count", "save", "gadget", "gadget", "dry_gadget", "dry_gadget", "dry_create", "dry_update", "dry_find", "dry_delete",
+var opKinds = []string{"create", "create", "create_full", "create_batches", "update_birthday", "first", "find", "preload", "preload_all", "joins", "update", "updates", "delete", "delete_pet", "tx", "tx_fail", "assoc_append", "assoc_find", "assoc_count", "note", "note_find", "count", "save", "gadget", "gadget", "dry_gadget", "dry_gadget", "dry_create", "dry_update", "dry_find", "dry_delete",
 	"assoc_replace", "assoc_clear", "assoc_delete", "assoc_replace_account", "assoc_delete_company", "assoc_replace_langs"}
 
 func (Prop) Gen(r *core.Rand, tier string) interface{} {
@@ -113,6 +113,12 @@ func (Prop) Gen(r *core.Rand, tier string) interface{} {
 			} else {
 				c.Tasks[t] = append([]Op{{Kind: "first", J: 0}}, c.Tasks[t]...)
 			}
+		}
+	}
+	if r.Chance(10) {
+		// every task sets a pointer-typed time field of a row of its own
+		for t := range c.Tasks {
+			c.Tasks[t] = append([]Op{{Kind: "create", J: 0}, {Kind: "update_birthday", J: 0, X: t}}, c.Tasks[t]...)
 		}
 	}
 	if r.Chance(12) {
@@ -293,6 +299,16 @@ func runOp(db *gorm.DB, t int, op Op) string {
 	case "create_full":
 		u := userFor(t, op.J, true)
 		return out(db.Create(u), renderUser(u))
+	case "update_birthday":
+		// a time.Time value for a *time.Time field
+		bd := time.Date(1990, time.Month(1+op.X%12), 1+t, 0, 0, 0, 0, time.UTC)
+		u := &fam.User{ID: id}
+		tx := db.Model(u).Update("birthday", bd)
+		got := "<nil>"
+		if u.Birthday != nil {
+			got = u.Birthday.Format("2006-01-02")
+		}
+		return out(tx, got)
 	case "create_batches":
 		// three records in batches of two: CreateInBatches wraps the batches in one transaction
 		us := []fam.User{*userFor(t, 0, false), *userFor(t, 1, false), *userFor(t, 2, false)}
